@@ -88,10 +88,18 @@ def run(F, S, R, tier):
             R.bad("prov/reorg/detached-proposals", "remove_by_detached_proposal is not given detached_proposal_id", [up.where()])
         # mine mode promotion: proposed before gap, from the new snapshot's proposal view
         K.mustcall(R, "mustcall/reorg/promotion", up, [TP + "proposed_rtx$|" + TP + "gap_rtx$"], S, allow_err_exits=False, assume=[], what="x") if False else None
-        if up.calls_to(TP + "proposed_rtx$") and up.calls_to(TP + "gap_rtx$") and up.calls_to(r"ProposalView::contains_proposed$") and up.calls_to(r"ProposalView::contains_gap$"):
+        # the promotion may live in the reorg body or in a helper of the crate it calls (stage_entries(..), promote(..))
+        pbs = [up] + K.same_crate_helpers(up)
+
+        def anyc(pat):
+            return [c for b_ in pbs for x in K.with_nested(b_) for c in x.calls_to(pat)]
+        if anyc(TP + "proposed_rtx$") and anyc(TP + "gap_rtx$") and anyc(r"ProposalView::contains_proposed$") and anyc(r"ProposalView::contains_gap$"):
             srcs = set()
-            for c in up.calls_to(r"ProposalView::contains_(proposed|gap)$"):
-                srcs |= up.operand_sources(c.args[0])
+            for c in anyc(r"ProposalView::contains_(proposed|gap)$"):
+                srcs |= c.body.operand_sources(c.args[0])
+            if [c for c in anyc(r"Snapshot::proposals$")]:
+                srcs.add("call:ckb_snapshot::Snapshot::proposals")
+                srcs.add("param:snapshot")
             if K.src_match(srcs, [r"param:snapshot", r"call:.*Snapshot::proposals$"]):
                 R.ok("mustcall/reorg/promotion", "in mine mode stages follow the new snapshot's proposal view (gap/pending -> proposed, pending -> gap)", [up.where()])
             else:
